@@ -52,6 +52,7 @@ fn gens(tier: Tier) -> Vec<Gen> {
         Gen::new("grammar_mutations", tier.pick(4, 12_000, 1_000_000)),
         Gen::new("byte_mutations", tier.pick(4, 8_000, 600_000)),
         Gen::new("random_scripts", tier.pick(4, 6_000, 400_000)),
+        Gen::new("hostile_field_sections", tier.pick(4, 3_000, 150_000)),
         Gen::new("regressions", 1),
     ]
 }
@@ -281,6 +282,124 @@ fn blk_hostile(rng: &mut Rng) -> Vec<u8> {
     }
 }
 
+/// A HEADERS frame whose field section is validly QPACK-encoded but hostile at the field level:
+/// what `Header::try_from` / `into_request_parts` / `into_response_parts` see after decoding.
+fn blk_hostile_fields(request: bool, rng: &mut Rng) -> Vec<u8> {
+    let mut f: Vec<rq::Field> = if request {
+        vec![
+            (b":method".to_vec(), b"GET".to_vec()),
+            (b":scheme".to_vec(), b"https".to_vec()),
+            (b":authority".to_vec(), b"example.com".to_vec()),
+            (b":path".to_vec(), b"/x".to_vec()),
+        ]
+    } else {
+        vec![(b":status".to_vec(), b"200".to_vec())]
+    };
+    let mut o = rq::EncOpts { huffman: rng.bool(), ..Default::default() };
+    let kind = rng.below(14);
+    match kind {
+        0 => f.push((vec![], rng.bytes_upto(3))),
+        1 => f.push((b"X-Upper".to_vec(), b"v".to_vec())),
+        2 => {
+            let bad = *rng.pick(&[b' ', 0u8, 0x80, b':', b'\n', 0x7f, b'(']);
+            let at = rng.usize(3);
+            let mut n = b"xy".to_vec();
+            n.insert(at.min(2), bad);
+            f.push((n, b"v".to_vec()));
+        }
+        3 => f.push((rng.pick(&[&b":foo"[..], b":", b":Method", b":status ", b":protocol"]).to_vec(), b"v".to_vec())),
+        4 => {
+            f.push((b"x-a".to_vec(), b"1".to_vec()));
+            f.push((rng.pick(&[&b":path"[..], b":status", b":method", b":authority"]).to_vec(), b"/late".to_vec()));
+        }
+        5 => {
+            let i = rng.usize(f.len());
+            let d = f[i].clone();
+            f.push((d.0, rng.pick(&[&b"other"[..], b"", b"GET", b"200"]).to_vec()));
+        }
+        6 => {
+            let i = rng.usize(f.len());
+            f[i].1 = vec![];
+        }
+        7 => {
+            let i = rng.usize(f.len());
+            f[i].1 = match rng.below(5) {
+                0 => rng.bytes_upto(6),
+                1 => b"99".to_vec(),
+                2 => b"1000".to_vec(),
+                3 => b"\xff\xfe".to_vec(),
+                _ => vec![b'a'; 70_000],
+            };
+        }
+        8 => {
+            let bad = *rng.pick(&[0u8, b'\r', b'\n', 0x7f, 0x80, 0xff, b'\t', b' ']);
+            f.push((b"x-v".to_vec(), vec![b'a', bad, b'b']));
+        }
+        9 => {
+            // very many field lines: the decoded list is larger than anything `http::HeaderMap` accepts
+            let n = *rng.pick(&[24_576usize, 24_577, 32_768, 32_769, 40_000]);
+            let mut sec = vec![0u8, 0u8];
+            if rng.bool() {
+                for (k, v) in &f {
+                    rq::encode_line(k, v, &o, &mut sec);
+                }
+            }
+            let line = 0xc0 | *rng.pick(&[2u8, 29, 31, 46, 53]); // indexed static, ordinary fields
+            sec.extend(std::iter::repeat(line).take(n));
+            return raw::headers_frame(&sec);
+        }
+        10 => {
+            // very many distinct names
+            let n = *rng.pick(&[24_577usize, 32_769, 33_000]);
+            let mut sec = vec![0u8, 0u8];
+            for (k, v) in &f {
+                rq::encode_line(k, v, &o, &mut sec);
+            }
+            o.huffman = false;
+            for i in 0..n {
+                rq::encode_line(format!("x{:x}", i).as_bytes(), b"", &o, &mut sec);
+            }
+            return raw::headers_frame(&sec);
+        }
+        11 => {
+            let l = *rng.pick(&[65_535usize, 65_536, 70_000]);
+            f.push((vec![b'n'; l], b"v".to_vec()));
+        }
+        12 => {
+            // a required pseudo-header is missing, or the other role's is present
+            if rng.bool() && !f.is_empty() {
+                let i = rng.usize(f.len());
+                f.remove(i);
+            } else if request {
+                f.push((b":status".to_vec(), b"200".to_vec()));
+            } else {
+                f.push((b":method".to_vec(), b"GET".to_vec()));
+            }
+        }
+        _ => {
+            if request {
+                f[0].1 = b"CONNECT".to_vec();
+                match rng.below(3) {
+                    0 => {}
+                    1 => f.push((b":protocol".to_vec(), rng.pick(&[&b"webtransport"[..], b"", b"connect-udp", b"\x00"]).to_vec())),
+                    _ => {
+                        f.remove(3);
+                        f.remove(1);
+                    }
+                }
+                f.push((b"host".to_vec(), rng.pick(&[&b"example.com"[..], b"other", b"", b"example.com:443"]).to_vec()));
+            } else {
+                f[0].1 = rng.pick(&[&b"101"[..], b"100", b"199", b"000", b"2 0"]).to_vec();
+            }
+        }
+    }
+    if rng.chance(1, 4) {
+        o.use_static_exact = false;
+        o.use_static_name = rng.bool();
+    }
+    raw::headers_frame(&rq::encode_section(&f, &o))
+}
+
 /// A valid scenario for `h3_is_server` with `nreq` requests. Slots: raw client: slot 0 = control
 /// stream, then one bidi per request (slots 1..); raw server: slot 0 = control, bidi slots 1.. refer
 /// to the client's request streams.
@@ -372,6 +491,11 @@ pub fn run_script(ops: &[POp], h3_is_server: bool, split: bool, nreq_client: usi
     let mut cfg = NetCfg::random(&mut rng);
     cfg.backpressure = false;
     cfg.ordered_accept = rng.bool();
+    if ops.iter().any(|o| matches!(o, POp::Write { data, .. } if data.len() > 3000)) {
+        // h3's BufList::remaining is linear in the number of chunks; tiny chunks of a big write make
+        // one case take minutes without adding anything this property is about
+        cfg.chunk_style = 0;
+    }
     let net = sim::new_net(cfg);
     let h3_side = if h3_is_server { SERVER } else { CLIENT };
     let raw_side = raw::other(h3_side);
@@ -818,6 +942,31 @@ fn run_case(gen: &str, index: u64, seed: u64, _tier: Tier, rep: &mut Report) {
             let mut ops = skeleton(h3_is_server, nreq, rng.below(32), &mut rng);
             for _ in 0..1 + rng.usize(4) {
                 mutate_bytes(&mut ops, &mut rng);
+            }
+            check_script(&ops, h3_is_server, rng.bool(), nreq, rng.next(), rep);
+        }
+        "hostile_field_sections" => {
+            // one HEADERS frame of a valid scenario (head or trailers) replaced by a validly encoded
+            // but field-level hostile section
+            let h3_is_server = rng.bool();
+            let nreq = 1 + rng.usize(2);
+            let mut ops = skeleton(h3_is_server, nreq, rng.below(32), &mut rng);
+            let idx: Vec<usize> = ops
+                .iter()
+                .enumerate()
+                .filter(|(_, o)| matches!(o, POp::Write { slot, data } if *slot != 0 && data.first() == Some(&0x01)))
+                .map(|(i, _)| i)
+                .collect();
+            if let Some(&i) = idx.get(rng.usize(idx.len().max(1))) {
+                // the first HEADERS of a stream is the head, a later one the trailers
+                let slot_i = match &ops[i] { POp::Write { slot, .. } => *slot, _ => 0 };
+                let first = !ops[..i].iter().any(|o| matches!(o, POp::Write { slot, .. } if *slot == slot_i));
+                let as_request = h3_is_server && (first || rng.chance(1, 4));
+                let blk = blk_hostile_fields(as_request, &mut rng);
+                rep.count(if first { "hostile_fields[head]" } else { "hostile_fields[trailers]" });
+                if let POp::Write { data, .. } = &mut ops[i] {
+                    *data = blk;
+                }
             }
             check_script(&ops, h3_is_server, rng.bool(), nreq, rng.next(), rep);
         }
